@@ -90,7 +90,22 @@ func newHubRig(c0 uint64) *hubRig {
 func (r *hubRig) keepUp(w int) { r.eager = append(r.eager, w) }
 
 // barrier: DeleteWatcher on an unknown channel takes the hub's write lock and changes nothing.
-func (r *hubRig) barrier() { r.hub.DeleteWatcher(make(chan []*proto.Event), true) }
+func (r *hubRig) barrier() {
+	if r.fail != "" {
+		return
+	}
+	done := make(chan struct{})
+	go func() {
+		r.hk.exempt.Store(lib.GoID(), true)
+		r.hub.DeleteWatcher(make(chan []*proto.Event), true)
+		close(done)
+	}()
+	select {
+	case <-done:
+	case <-time.After(20 * time.Second):
+		r.fail = "the hub holds its read lock for more than 20s (blocked in a send to a subscriber?)"
+	}
+}
 
 func (r *hubRig) add() int {
 	ctx, cancel := context.WithCancel(context.Background())
@@ -112,11 +127,35 @@ func (r *hubRig) totalLen() int {
 
 // item sends one single-event batch and waits until the hub has offered it to every registered subscriber.
 // registered = the number of subscribers in the hub's map right now.
-func (r *hubRig) item(registered int, emit bool) uint64 {
+func (r *hubRig) item(registered int, emit bool) uint64 { return r.itemB(registered, emit, nil) }
+
+// itemB: onBlocked is called if the hub does not take the item within a second (it is then busy with something
+// the driver holds back, e.g. a deleter that runs on the hub's own goroutine after a repair of C05-F1).
+func (r *hubRig) itemB(registered int, emit bool, onBlocked func() int) uint64 {
+	if r.fail != "" {
+		return r.rev // the hub is already known to be stuck
+	}
 	r.rev++
 	e := &proto.Event{Type: proto.Event_PUT, Revision: r.rev, Kv: &proto.KeyValue{Key: []byte("/h/k"), Value: []byte("v"), Revision: r.rev}}
 	before := r.totalLen() + int(atomic.LoadInt32(&r.hk.drops))
-	r.in <- []*proto.Event{e}
+	if onBlocked != nil {
+		select {
+		case r.in <- []*proto.Event{e}:
+			goto sent
+		case <-time.After(time.Second):
+			registered = onBlocked()
+		}
+	}
+	select {
+	case r.in <- []*proto.Event{e}:
+	case <-time.After(20 * time.Second):
+		r.fail = fmt.Sprintf("the hub did not take item rev %d within 20s (blocked in a send?)", r.rev)
+		return r.rev
+	}
+sent:
+	if r.fail != "" {
+		return r.rev
+	}
 	if !waitUntil(20*time.Second, func() bool {
 		return r.totalLen()+int(atomic.LoadInt32(&r.hk.drops)) >= before+registered
 	}) {
@@ -190,12 +229,16 @@ func hubCorpus(w *coll) {
 		fast := r.add()
 		// fill the slow subscriber's buffer; the fast one reads along
 		r0 := r.rev + 1
-		for i := 0; i < hb; i++ {
+		for i := 0; i < hb && r.fail == ""; i++ {
 			r.item(2, false)
 			for len(r.subs[fast].ch) > 0 {
 				b := <-r.subs[fast].ch
 				r.subs[fast].got = append(r.subs[fast].got, fromProto(b[0]))
 			}
+		}
+		if r.fail != "" {
+			finishHub(w, r, "hub-overflow-stuck")
+			continue
 		}
 		r.sc.bulk(r0, uint64(hb), key, val, []string{lHubItem(), lW("LProc", fast), lW("LProc", fast), lW("LConsume", fast)})
 		r.observe(slow, false)
@@ -204,6 +247,11 @@ func hubCorpus(w *coll) {
 			atomic.StoreInt32(&r.hk.parkDeleters, 1)
 		}
 		r.item(2, true) // dropped for `slow`
+		if r.fail != "" {
+			r.drain(slow, 3) // unblock a hub stuck in a blocking send, so that its goroutine can end
+			finishHub(w, r, "hub-overflow-stuck")
+			continue
+		}
 		r.drain(fast, 1)
 		if variant == 0 {
 			waitUntil(20*time.Second, func() bool { return atomic.LoadInt32(&r.hk.parked) == 1 })
@@ -211,12 +259,24 @@ func hubCorpus(w *coll) {
 			r.sc.subs(r.hub.VerifSubs())
 			r.observe(slow, false)
 			r.drain(slow, 1) // the consumer takes one batch: there is room again
-			r.item(2, true)  // accepted although the previous batch was dropped
+			syncDelete := false
+			r.itemB(2, false, func() int {
+				// the hub itself is running the deleter (synchronous delete): let it finish first
+				syncDelete = true
+				r.hk.releaseDeleters()
+				waitUntil(20*time.Second, func() bool { return r.hub.VerifSubs() == 1 })
+				r.sc.lab(lW("LHubDelete", slow))
+				return 1
+			})
+			// accepted although the previous batch was dropped (unless the deleter ran first)
+			r.sc.labs(lTake(slot{rev: r.rev, prev: r.rev - 1, valid: true, verb: 1, key: key, val: val}), "LSeqCache", "LSeqSend", lHubItem())
 			r.drain(fast, 1)
 			r.observe(slow, false)
-			r.hk.releaseDeleters()
-			waitUntil(20*time.Second, func() bool { return r.hub.VerifSubs() == 1 })
-			r.sc.lab(lW("LHubDelete", slow))
+			if !syncDelete {
+				r.hk.releaseDeleters()
+				waitUntil(20*time.Second, func() bool { return r.hub.VerifSubs() == 1 })
+				r.sc.lab(lW("LHubDelete", slow))
+			}
 			r.sc.subs(r.hub.VerifSubs())
 		} else {
 			waitUntil(20*time.Second, func() bool { return r.hub.VerifSubs() == 1 })
